@@ -194,6 +194,8 @@ static void width_family(void)
                 uint64_t uv = (uint64_t) v;
                 for (int i = 0; i < wb; i++) b[n++] = (uint8_t) (uv >> (8 * i));
                 if (form > 0 && v > 0 && v <= 66000) { memset(b + n, 'x', (size_t) v); n += (size_t) v; }
+                /* a NEGATIVE length in 1 or 2 bytes, followed by as many bytes as its unsigned reading asks for: still malformed */
+                if (form > 0 && v < 0 && w <= 1) { size_t u = (size_t) (uv & (w == 0 ? 0xff : 0xffff)); memset(b + n, 'x', u); n += u; }
                 if (form == 3) { b[n++] = 0x44; }
                 b[n++] = kind == VK_OBJ ? 0x41 : 0x43;
                 snprintf(label, sizeof label, "width family: value %lld in %d byte(s) as %s", (long long) v, wb,
@@ -209,7 +211,12 @@ static void width_family(void)
 static void name_order_family(void)
 {
     static const size_t plen[] = { 0, 1, 126, 127, 128, 254, 255, 256, 257, 32766, 32767, 32768, 65534, 65535, 65536, 65537 };
-    static const char *const suf[][2] = { { "a", "b" }, { "b", "a" }, { "a", "a" }, { "a", "ab" }, { "ab", "a" }, { "b", "ax" }, { "", "a" }, { "a", "" }, { "", "" } };
+    static const struct { const char *s[2]; size_t l[2]; } suf[] = {
+        { { "a", "b" }, { 1, 1 } }, { { "b", "a" }, { 1, 1 } }, { { "a", "a" }, { 1, 1 } }, { { "a", "ab" }, { 1, 2 } }, { { "ab", "a" }, { 2, 1 } }, { { "b", "ax" }, { 1, 2 } },
+        { { "", "a" }, { 0, 1 } }, { { "a", "" }, { 1, 0 } }, { { "", "" }, { 0, 0 } },
+        /* names that agree up to and including an embedded 0x00 and differ only after it (a comparison that stops at the NUL sees them as equal) */
+        { { "k\0a", "k\0b" }, { 3, 3 } }, { { "k\0b", "k\0a" }, { 3, 3 } }, { { "k\0b", "k\0aa" }, { 3, 4 } }, { { "\0", "\0\0" }, { 1, 2 } }, { { "\0\0", "\0" }, { 2, 1 } }
+    };
     static uint8_t doc[140000], P[65537];
     char label[120];
     memset(P, 'p', sizeof P);
@@ -219,16 +226,16 @@ static void name_order_family(void)
             size_t n = 0;
             doc[n++] = 0x40;
             for (int k = 0; k < 2; k++) {
-                size_t l = plen[pi] + strlen(suf[si][k]);
+                size_t l = plen[pi] + suf[si].l[k];
                 if (l <= 127) { doc[n++] = 0x14; doc[n++] = (uint8_t) l; }
                 else if (l <= 32767) { doc[n++] = 0x15; doc[n++] = (uint8_t) l; doc[n++] = (uint8_t) (l >> 8); }
                 else { doc[n++] = 0x16; doc[n++] = (uint8_t) l; doc[n++] = (uint8_t) (l >> 8); doc[n++] = (uint8_t) (l >> 16); doc[n++] = 0; }
                 memcpy(doc + n, P, plen[pi]); n += plen[pi];
-                memcpy(doc + n, suf[si][k], strlen(suf[si][k])); n += strlen(suf[si][k]);
+                memcpy(doc + n, suf[si].s[k], suf[si].l[k]); n += suf[si].l[k];
                 doc[n++] = 0x44;
             }
             doc[n++] = 0x41;
-            snprintf(label, sizeof label, "name order: common prefix of %zu bytes, suffixes '%s' then '%s'", plen[pi], suf[si][0], suf[si][1]);
+            snprintf(label, sizeof label, "name order: common prefix of %zu bytes, suffix pair #%zu", plen[pi], si);
             vf_count(CT_WIDTH_CASES, 1);
             eval_input(doc, n, label, VK_OBJ);
         }
@@ -430,7 +437,7 @@ int main(int argc, char **argv)
              "sequence of <= 3 tokens, every framed sequence of <= %d tokens over the %d-token core alphabet; every valid document with <= %d value tokens over 12 "
              "leaf classes (all integer widths, empty/short/2-byte-length strings, bytes, double, booleans) and ALL mutants at deviation distance <= %d (distance 2 "
              "for documents of <= 2 values); nesting towers k in d-2..d+2 for d in {1,2,3,10,255}, 253..258 nested arrays; integer/length width family (35 values x 4 "
-             "widths x 4 roles), adjacent-name order family (16 common-prefix lengths up to 65537 x 9 suffix pairs), wide containers (255..65537 members); the %s corpus files; each x {object, array} x max_depth {1,2,3,10,255}",
+             "widths x 4 roles), adjacent-name order family (16 common-prefix lengths up to 65537 x 14 suffix pairs incl. names differing only after an embedded NUL), wide containers (255..65537 members); the %s corpus files; each x {object, array} x max_depth {1,2,3,10,255}",
              L_FRAMED, VF_NTOK_HOSTILE, L_CORE, VF_NTOK_CORE, N_DOC, MUT_D, "220+1571");
     static const char *const assumptions[] = {
         "the reference recogniser (lib/vf_ref.h) is a correct reading of BINSON-SPEC-1 / binson_defines.h; it shares no code with the library and is cross-checked against the generator's trees in every other check",
